@@ -26,6 +26,8 @@ import (
 	"gitlab.com/aquachain/aquachain/params"
 	"gitlab.com/aquachain/aquachain/rlp"
 	"gitlab.com/aquachain/aquachain/verifharness/vh"
+	"golang.org/x/crypto/argon2"
+	xsha3 "golang.org/x/crypto/sha3"
 )
 
 type cfgOnly struct{ cfg *params.ChainConfig }
@@ -540,57 +542,168 @@ func (e *env) sealer() {
 				c.Violate("mined-seal-rejected/"+shTok(sealed), "a seal returned by Seal does not pass VerifySeal", rep)
 			}
 		}
-		// the nonce search itself against the model, from the nonce Seal found backwards is unknown (random start), so run
-		// mine with a chosen start nonce
+		// the nonce search itself against the model and the reference, from a chosen start nonce
 		seed := c.Rng.Uint64()
 		if c.Rng.Chance(20) {
 			seed = ^uint64(0) - uint64(c.Rng.Intn(3)) // wrap-around of nonce++
 		}
-		abort, found := make(chan struct{}), make(chan *types.Block, 1)
-		go eng.VerifMine(params.HeaderVersion(v), types.NewBlockWithHeader(h), 0, seed, abort, found)
-		var mined *types.Block
-		select {
-		case mined = <-found:
-		case <-time.After(30 * time.Second):
-			close(abort)
-			c.Fatal("mine did not find a nonce within 30 s at difficulty %v", h.Difficulty)
-		}
-		mh := mined.Header()
-		attempts := mh.Nonce.Uint64() - seed + 1 // uint64 arithmetic: also right across the wrap
-		// oracle table: every nonce tried
-		hv := types.CopyHeader(h) // the hash mine uses: computed from the header as given (version possibly unset)
-		var hnn common.Hash
-		var oracle []string
-		if int(hv.Version) == 3 {
-			pre := rlpNoNonce(hv)
-			hnn = common.BytesToHash(crypto.Argon2idB(pre))
-			oracle = append(oracle, "B:"+vh.Hex(pre)+"="+vh.Hex(hnn[:]))
-		} else {
-			hnn = crypto.Keccak256Hash(rlpNoNonce(hv))
-		}
-		if attempts > 4000 {
-			c.Count("mine-too-many-attempts-skipped")
-			continue
-		}
-		for k := uint64(0); k < attempts; k++ {
-			nonce := seed + k
-			if v == 1 {
-				hx := types.CopyHeader(h)
-				hx.Version = 1
-				hx.Nonce = types.EncodeNonce(nonce)
-				_, d, r, _ := e.dag.VerifySeal(hx.Number.Uint64(), hx)
-				oracle = append(oracle, fmt.Sprintf("H:0x%x:%s:0x%x=%s:%s", hx.Number.Uint64(), vh.Hex(hnn[:]), nonce, vh.Hex(d), vh.Hex(r)))
-			} else {
-				s := seedOf(hnn[:], nonce)
-				oracle = append(oracle, argonTag(v)+":"+vh.Hex(s)+"="+vh.Hex(crypto.VersionHash(byte(v), s)))
-			}
-		}
-		cas := fmt.Sprintf("mine %d %d %s %d %s", attempts+3, v, shTok(h), seed, oracleTok(oracle))
-		obs := fmt.Sprintf("found 0x%x %s 0x%x", mh.Nonce.Uint64(), mh.MixDigest.Hex(), int(mh.Version))
-		c.Correspond("mine~mine", cas, obs, e.m.Ask(cas))
+		e.mineFrom("mine/random-start", eng, h, v, seed)
 	}
 	e.normal.SetThreads(1)
 	e.tester.SetThreads(1)
+}
+
+// ---- independent reference for the argon2id seal (golang.org/x/crypto directly, not through crypto/hash.go or
+// core/types/block.go): seal-free hash = Keccak-256 (argon2id 16 KiB for version 3) of the RLP list of the 13 fields;
+// result = argon2id(hash || le64 nonce) with 1 / 16 / 32 KiB for versions 2 / 3 / 4, time 1, 1 lane, 32 bytes.
+func refArgon(v int, in []byte) []byte {
+	return argon2.IDKey(in, nil, 1, map[int]uint32{2: 1, 3: 16, 4: 32}[v], 1, 32)
+}
+func refSealFree(hv *types.Header) []byte {
+	pre := rlpNoNonce(hv)
+	if int(hv.Version) == 3 {
+		return refArgon(3, pre)
+	}
+	k := xsha3.NewLegacyKeccak256()
+	k.Write(pre)
+	return k.Sum(nil)
+}
+
+// refResult: the PoW value of (header as handed to mine, version v, nonce) by the reference; ethash (v = 1) through the
+// light verifier (mine uses the full dataset)
+func (e *env) refResult(h *types.Header, v int, hnn []byte, nonce uint64) (digest, result []byte) {
+	if v == 1 {
+		hx := types.CopyHeader(h)
+		hx.Version = 1
+		hx.Nonce = types.EncodeNonce(nonce)
+		_, d, r, _ := e.dag.VerifySeal(hx.Number.Uint64(), hx)
+		return d, r
+	}
+	in := make([]byte, 40)
+	copy(in, hnn)
+	for i := 0; i < 8; i++ {
+		in[32+i] = byte(nonce >> (8 * uint(i)))
+	}
+	return make([]byte, 32), refArgon(v, in)
+}
+
+func meets(result []byte, d *big.Int) bool {
+	return result != nil && new(big.Int).Mul(new(big.Int).SetBytes(result), d).Cmp(two256) <= 0
+}
+
+// mineFrom: the nonce search (sealer.go mine, through the export hook) from a chosen start nonce.
+// Direct oracle, with a concrete replay: the returned seal passes VerifySeal AND meets the target according to the
+// independent reference for the nonce it reports.  Correspondence: the model's search over the reference values of
+// every nonce from the start up to the first reference solution returns the same (nonce, mix digest, version).
+func (e *env) mineFrom(class string, eng *aquahash.Aquahash, h *types.Header, v int, start uint64) {
+	c := e.c
+	hnn := refSealFree(h) // from the header as given (mine hashes before it sets the version)
+	// reference search: the first nonce at or after start (uint64 wrap-around) that meets the target
+	var oracle []string
+	if int(h.Version) == 3 {
+		oracle = append(oracle, "B:"+vh.Hex(rlpNoNonce(h))+"="+vh.Hex(hnn))
+	}
+	want, attempts := uint64(0), uint64(0)
+	for k := uint64(0); k < 6000; k++ {
+		n := start + k
+		d, r := e.refResult(h, v, hnn, n)
+		if v == 1 {
+			oracle = append(oracle, fmt.Sprintf("H:0x%x:%s:0x%x=%s:%s", h.Number.Uint64(), vh.Hex(hnn), n, vh.Hex(d), vh.Hex(r)))
+		} else {
+			oracle = append(oracle, argonTag(v)+":"+vh.Hex(seedOf(hnn, n))+"="+vh.Hex(r))
+		}
+		if meets(r, h.Difficulty) {
+			want, attempts = n, k+1
+			break
+		}
+	}
+	if attempts == 0 {
+		c.Count("mine-too-many-attempts-skipped")
+		return
+	}
+	abort, found := make(chan struct{}), make(chan *types.Block, 1)
+	go eng.VerifMine(params.HeaderVersion(v), types.NewBlockWithHeader(h), 0, start, abort, found)
+	var mined *types.Block
+	select {
+	case mined = <-found:
+	case <-time.After(20 * time.Second):
+		close(abort)
+		c.Violate(fmt.Sprintf("mine-no-seal/v%d/start=0x%x/%s", v, start, shTok(h)), "the nonce search returned nothing within 20 s although the reference finds a solution after a few attempts",
+			map[string]string{"header": shTok(h), "version": fmt.Sprint(v), "start_nonce": fmt.Sprintf("0x%x", start), "reference_solution": fmt.Sprintf("0x%x", want)})
+		return
+	}
+	mh := mined.Header()
+	got := mh.Nonce.Uint64()
+	verr := eng.VerifySeal(nil, mh)
+	_, rr := e.refResult(h, v, hnn, got)
+	refOK := meets(rr, h.Difficulty) && int(mh.Version) == v && (v == 1 || mh.MixDigest == (common.Hash{}))
+	key := ""
+	if verr == nil && refOK {
+		key = fmt.Sprintf("%s/0x%x", mh.Hash().Hex(), start)
+	}
+	c.Eval(fmt.Sprintf("%s/v%d", class, v), key)
+	if (int(h.Version) == 3) != (v == 3) {
+		// the header was handed over without its version at a version-3 height: outside the miner's precondition
+		// (C14_mined_seal_without_version_refuted); the reference follows the code's order, VerifySeal cannot agree
+		c.Count("mine-unversioned-v3")
+	} else if verr != nil || !refOK {
+		c.Violate(fmt.Sprintf("mined-seal-rejected/v%d/start=0x%x/nonce=0x%x/%s", v, start, got, shTok(mh)),
+			"the seal returned by the miner's nonce search does not meet the target: VerifySeal and/or the independent argon2id/keccak reference reject the (header, nonce) it reports",
+			map[string]string{"header": shTok(h), "version": fmt.Sprint(v), "difficulty": h.Difficulty.String(), "start_nonce": fmt.Sprintf("0x%x", start),
+				"returned_nonce": fmt.Sprintf("0x%x", got), "returned_mix": mh.MixDigest.Hex(), "VerifySeal": sealClass(verr),
+				"reference_result_of_returned_nonce": vh.Hex(rr), "reference_accepts": fmt.Sprint(refOK), "reference_first_solution": fmt.Sprintf("0x%x", want), "sealed": shTok(mh)})
+	}
+	cas := fmt.Sprintf("mine %d %d %s %d %s", attempts+3, v, shTok(h), start, oracleTok(oracle))
+	obs := fmt.Sprintf("found 0x%x %s 0x%x", got, mh.MixDigest.Hex(), int(mh.Version))
+	c.Correspond("mine~mine", cas, obs, e.m.Ask(cas))
+}
+
+// startNonces: start nonces just below the byte / word boundaries of the 64-bit nonce (2^8, 2^16, 2^24, 2^32, 2^40, 2^48,
+// 2^56 and the wrap at 2^64), for every version, on headers chosen (by the reference) so that the search really
+// crosses the boundary before it finds a solution.
+func (e *env) startNonces() {
+	c := e.c
+	for _, v := range []int{2, 3, 4, 1} {
+		for _, bits := range []uint{8, 16, 24, 32, 40, 48, 56, 64} {
+			if v == 1 && bits != 8 && bits != 32 && bits != 64 && !c.Thorough() {
+				continue
+			}
+			for _, below := range []uint64{1, 2, 5} {
+				if !c.Thorough() && below == 2 && bits != 32 {
+					continue
+				}
+				boundary := uint64(0) // 2^64 wraps to 0
+				if bits < 64 {
+					boundary = 1 << bits
+				}
+				start := boundary - below
+				eng := e.engineFor(v)
+				// a header whose first reference solution lies at or after the boundary
+				var h *types.Header
+				for try := 0; try < 40; try++ {
+					cand := randHeader(c.Rng, big.NewInt(int64(1+c.Rng.Intn(20000))), v)
+					cand.Difficulty = big.NewInt(int64(8 + c.Rng.Intn(9)))
+					cand.Nonce, cand.MixDigest = types.BlockNonce{}, common.Hash{}
+					hnn := refSealFree(cand)
+					crosses := true
+					for k := uint64(0); k < below; k++ {
+						if _, r := e.refResult(cand, v, hnn, start+k); meets(r, cand.Difficulty) {
+							crosses = false
+							break
+						}
+					}
+					if crosses {
+						h = cand
+						break
+					}
+				}
+				if h == nil {
+					c.Fatal("no header found whose search crosses the nonce boundary")
+				}
+				e.mineFrom(fmt.Sprintf("mine/start=2^%d-%d", bits, below), eng, h, v, start)
+			}
+		}
+	}
 }
 
 // minerPaths: the two ways a header reaches Seal / VerifySeal from the node's own miner, driven through the real
@@ -711,7 +824,7 @@ func main() {
 	log.Root().SetHandler(log.DiscardHandler())
 	m := c.StartModel()
 	defer m.Close()
-	c.Res.Rule = "random headers x nonces x versions 1 (ethash, test mode), 2, 3, 4 (argon2id 1/16/32 KiB) and versions without algorithm; difficulties 1, 2, 0, negative, small, 64-bit, nearest passing / failing (result*difficulty straddling 2^256) among scanned nonces; wrong mix digest; numbers at the epoch-range limit and >= 2^64; Header.Hash / HashNoNonce / MinerHash by version; GetBlockVersion around HF5/HF8/HF9 of every built-in schedule; Seal with 1/2/8 threads then VerifySeal; mine from a chosen start nonce (incl. nonce wrap-around). A case is distinct and non-trivial when VerifySeal accepts it (distinct (difficulty, version, result))"
+	c.Res.Rule = "random headers x nonces x versions 1 (ethash, test mode), 2, 3, 4 (argon2id 1/16/32 KiB) and versions without algorithm; difficulties 1, 2, 0, negative, small, 64-bit, nearest passing / failing (result*difficulty straddling 2^256) among scanned nonces; wrong mix digest; numbers at the epoch-range limit and >= 2^64; Header.Hash / HashNoNonce / MinerHash by version; GetBlockVersion around HF5/HF8/HF9 of every built-in schedule; Seal with 1/2/8 threads then VerifySeal; mine from chosen start nonces: random, and just below every byte boundary 2^8..2^56 and the 2^64 wrap on headers whose search provably crosses the boundary, the returned seal re-verified by VerifySeal and by an independent x/crypto argon2id + keccak reference. A case is distinct and non-trivial when VerifySeal accepts it (distinct (difficulty, version, result))"
 	cfgT := &aquahash.Config{CachesInMem: 2, DatasetsInMem: 1, PowMode: aquahash.ModeTest}
 	e := &env{c: c, m: m, normal: aquahash.New(&aquahash.Config{StartVersion: 2, PowMode: aquahash.ModeNormal}), tester: aquahash.New(cfgT), dag: ethashdag.New(cfgT)}
 	e.versions()
@@ -719,6 +832,7 @@ func main() {
 	e.seals()
 	e.boundaries()
 	e.sealer()
+	e.startNonces()
 	e.minerPaths()
 	c.Assume("ethash (version 1) is exercised in ModeTest (32 KiB dataset); hashimotoLight = hashimotoFull is taken as a property of the primitive")
 	c.Assume("argon2id / hashimoto outputs enter the model as oracle values recorded from the implementation; Keccak-256 and the RLP pre-images are computed by the model")
